@@ -12,6 +12,7 @@ the resource usage of the pipeline functions.
 
 from __future__ import annotations
 
+import datetime
 import functools
 import inspect
 import os
@@ -1613,10 +1614,12 @@ class Pipeline:
         This value is `None` if no errors have occurred during
         the pipeline execution.
         """
-        for f in self.functions:
-            if f.error_snapshot:
-                return f.error_snapshot
-        return None
+        snapshots = [f.error_snapshot for f in self.functions if f.error_snapshot]
+        if not snapshots:
+            return None
+        # The most recent failure: a function that failed in an earlier call keeps its
+        # (then stale) snapshot, so the first one in listing order may be outdated.
+        return max(snapshots, key=lambda s: datetime.datetime.fromisoformat(s.timestamp))
 
     def nest_funcs(
         self,
